@@ -23,7 +23,7 @@ def print(*a):
 print("| seed | what it needs | first result | after strengthening / remark |\n|---|---|---|---|")
 print("\n".join(rows))
 n = len(rows)
-print("\n%d second- and third-round seeds; %d missed at first run." % (n, sum(1 for r in rows if "**missed**" in r)))
+print("\n%d seeds of the second, third and fourth rounds; %d missed at first run." % (n, sum(1 for r in rows if "**missed**" in r)))
 
 text = "\n".join(out)
 if "--update-design" in sys.argv:
